@@ -141,6 +141,26 @@ fn run_check(id: &str, tier: Tier) -> i32 {
             schedx::run(&mut c, "C04", schedx::c04_case_infos(tier), if tier == Tier::Quick { &["free"] } else { &["free", "wp"] });
             c.finish()
         }
+        "C09" => {
+            let mut c = Check::new(id, tier, "model_checking");
+            c.assumptions = vec![
+                "bounded: 1-3 writer threads (read-modify-write increment of one counter) with 0-2 reader threads, each thread holding at most one transaction; all schedules up to the preemption bound given per case; fresh 4-page files so that the first commit grows and remaps the file".into(),
+                "scheduling points: every library lock acquisition, every system call on the database fd, harness yields inside the read-modify-write and between a reader's reads; deadlock = no enabled thread while some are unfinished (the scheduler owns the lock model)".into(),
+                "std::sync::RwLock explored under a policy-free and a writer-preferring model".into(),
+            ];
+            schedx::run(&mut c, "C09", c09::case_infos(tier), &["free", "wp"]);
+            c.finish()
+        }
+        "C13" => {
+            let mut c = Check::new(id, tier, "model_checking");
+            c.assumptions = vec![
+                "openers are threads of one process, each with its own descriptor, mapping and DBInner: flock locks belong to the open file description, so two independent DB::open calls in one process conflict exactly as two processes do, and the library has no process-wide state".into(),
+                "scheduling points at every interposed system call of the open / initialise / commit / close path (open, fallocate, write, fsync, flock, mmap, close) plus lock acquisitions and one harness yield while holding the database; flock is a scheduler-modelled lock keyed by inode, released at close".into(),
+                "bounded: 2 and 3 openers, all schedules up to the preemption bound given per case; varied start offsets / hold times of the property text are subsumed by the schedule enumeration".into(),
+            ];
+            schedx::run(&mut c, "C13", c13::case_infos(tier), &["free"]);
+            c.finish()
+        }
         "C11" => {
             let mut c = Check::new(id, tier, "fault_enumeration");
             c.assumptions = vec![
